@@ -105,7 +105,7 @@ theorem CountInv.closed : Closed0 CountInv where
   pkt := fun s L prio c now _ idx b _ _ h _ _ _ _ _ =>
     ⟨cnt_updF c.key tickInfo shrinks_tickInfo h.1 (by show _ ≤ (_ :: s.log).length; simp),
       fun f hf => (h.2 f hf).mono (by show _ ≤ (_ :: s.log).length; simp)⟩
-  done := fun s L _ c now _ _ _ h _ _ _ _ _ => by
+  done := fun s L _ c now _ _ _ h _ _ _ => by
     unfold CountInv
     rw [transferDoneFile_objs, transferDoneFile_fdts, transferDoneFile_log]
     exact ⟨cnt_done c.key now h.1, fun f hf => (h.2 f hf).mono (by simp)⟩
